@@ -30,10 +30,10 @@ class CheckC20(core.Check):
     level = "exploration"
     cfg = "A"
     rule = (
-        "differential cases: one scripted session (keys, ephemerals, prologue, payloads, transport traffic) executed under all 9 back-end "
+        "differential cases: one scripted session (keys, ephemerals, prologue, payloads, transport traffic, rekeys, manual epoch keys sharing a prefix) executed under all 9 back-end "
         "assignments; every output and observation of every step must be identical across the 9 and the session must complete in each (so "
         "mixed-back-end pairs interoperate); truth-table cases: FallbackResolver(preferred, fallback) probed for every (primitive kind, "
-        "choice) and rng with availability {neither, preferred, fallback, both} on self-identifying stubs, nested fallbacks, and the real "
+        "choice) and rng with availability {neither, preferred, fallback, both} on self-identifying stubs, nested fallbacks, sequences of questions to one instance, and the real "
         "resolvers' documented capability sets; distinct key = (protocol name, scenario shape) resp. (kind, choice, availability); non-trivial = "
         "all 9 runs compared / probe judged"
     )
@@ -70,6 +70,7 @@ class CheckC20(core.Check):
         # payload buffers: large, exact, a few spare bytes (the back ends take different code paths)
         rbufs = [rnd.choice([BIG, ln, ln + rnd.randrange(1, 16), ln + 16]) for _d, ln in plan]
         stateless = rnd.random() < 0.3
+        manual_eps = rnd.choice([(), (), (1, 2), (1, 2, 2, 3), (7, 7)])
         runs = []
         for j, (ra, rb) in enumerate(ASSIGN):
             ids = ("A%d" % j, "B%d" % j)
@@ -83,6 +84,14 @@ class CheckC20(core.Check):
                 c.op("rekey_in", ids[1])
                 c.op("t_write", ids[0], pay="gen:9:rk", buf=BIG, out="rk%d" % j)
                 c.op("t_read", ids[1], msg="$rk%d" % j, buf=BIG)
+            # epoch keys installed by hand: label || counter, so consecutive keys share a long prefix; then the same key again
+            for ep in manual_eps:
+                mk = (b"verif epoch key, direction i" + ep.to_bytes(4, "big")).hex()
+                for pid in ids:
+                    c.op("rekey_manual", pid, i=mk, r="-")
+                kw = {"n": 40 + ep} if stateless else {}
+                c.op("st_write" if stateless else "t_write", ids[0], pay="gen:20:ep%d" % ep, buf=BIG, out="ep%d_%d" % (j, ep), **kw)
+                c.op("st_read" if stateless else "t_read", ids[1], msg="$ep%d_%d" % (j, ep), buf=BIG, **kw)
             runs.append((first, c.nops))
         c.meta["runs"] = runs
         c.info = {"kind": "df", "name": name, "key": (name, len(plan), stateless)}
@@ -112,6 +121,18 @@ class CheckC20(core.Check):
         for inA, inB in itertools.product((False, True), repeat=2):
             lab = c.op("resolve_probe", r="fb(%s|%s)" % (stub("A", ["rng"] if inA else []), stub("B", ["rng"] if inB else [])), kind="rng", choice="-")
             exp[lab] = ("some:a0a0a0a0" if inA else ("some:b0b0b0b0" if inB else "none"), ("rng", "-", inA, inB))
+        # several questions to ONE FallbackResolver instance: what the preferred member lacked for one choice must not
+        # colour the answer for another choice of the same kind (or for another kind) asked afterwards
+        seqs = {}
+        for kind, choices in KINDS.items():
+            for (sx, dx), (sy, dy) in itertools.permutations(choices, 2):
+                ix, iy = "%s.%s" % (kind, dx), "%s.%s" % (kind, dy)
+                for b_has_x in (False, True):
+                    rspec = "fb(%s|%s)" % (stub("A", [iy, "rng"]), stub("B", ([ix] if b_has_x else []) + [iy]))
+                    lab = c.op("resolve_probe", r=rspec, seq="%s:%s;%s:%s;rng:-;%s:%s" % (kind, sx, kind, sy, kind, sx))
+                    x = "stubB" if b_has_x else "none"
+                    seqs[lab] = ([x, "stubA", "a0a0a0a0", x], (kind, sx, sy, b_has_x))
+        c.meta["seqs"] = seqs
         # real resolvers: Some/None according to their documented capability sets, alone and combined
         for kind, choices in KINDS.items():
             for spec, dbg in choices:
@@ -142,6 +163,18 @@ class CheckC20(core.Check):
                     continue
                 r.keys.add(key)
                 r.nontrivial = True
+            for lab, (want, key) in case.meta.get("seqs", {}).items():
+                e = by.get(str(lab))
+                if e is None or e.skipped or e.panic:
+                    r.inconclusive.append("probe sequence %s not executed: %s" % (key, e.res if e else "missing"))
+                    continue
+                got = e.kv.get("ids", "").split(",")
+                r.stats["probes_judged"] += 1
+                r.stats["probe_sequences_judged"] += 1
+                if got != want:
+                    r.viol("C20|fallback-sequence|%s" % key[0], "one FallbackResolver instance asked for %s %s, %s, rng, %s again (fallback member has %s: %s) answered %s, expected %s" % (key[0], key[1], key[2], key[1], key[1], key[3], got, want))
+                    continue
+                r.keys.add(("seq",) + key)
             return r
         name = case.info["name"]
         runs = case.meta["runs"]
